@@ -9,6 +9,7 @@ emission of every call, stage, completion counts, cipher, nonce half, payload, r
 Node level (adversarial network, then reliable: reconnection deadline): see the node part below."""
 import os
 import vplib as V
+from checks import cloudcommon
 from checks import hscommon as H
 
 PID = "C05"
@@ -69,6 +70,7 @@ def run(tier, out):
                 "%d random schedules of depth 200 per configuration; distinct = exported transitions" % ([p[0] for p in plans], nrand),
         "self_test": st_desc,
     }
+    cloudcommon.part(PID, tier, out, cov)
     return out.finish("model_checking", cov, assumptions=[
         "signatures, ECDH and AEAD are perfect (symbolic in the specification)",
         "object level: one handshake attempt per object; re-dialling after a fatal error is node behaviour (node-level checks)",
